@@ -24,18 +24,23 @@ def track_variants(k):
     yield [("two", True)] * k
 
 
+# TRACK numbers are labels: the order of the sheet and the index times decide where a track starts and ends
+TRACK_NUMBERS = {"odd": [3, 9, 10, 42], "desc": [42, 10, 9, 3], "restart": [1, 2, 1, 2], "firsthigh": [9, 1, 2, 3], "equal": [1, 1, 1, 1],
+                 "zero": [0, 0, 1, 99]}
+
+
 def make_tracks(positions, opts, first_number=1, numbering="std"):
     tracks = []
     for i, (p, (idx, title)) in enumerate(zip(positions, opts)):
         nxt = positions[i + 1] if i + 1 < len(positions) else p + 3
         second = min(p + 1, max(p, nxt - 1)) if nxt > p + 1 else p
         if idx == "one":
-            indices = [(1, p)] if numbering == "std" else [(5 + i, p)]
-        elif numbering == "std":
+            indices = [(1, p)] if numbering != "odd" else [(5 + i, p)]
+        elif numbering != "odd":
             indices = [(0, p), (1, second)]
         else:
             indices = [(2, p), (1, second), (7, second)]      # first INDEX line is neither 00 nor 01
-        num = first_number + i if numbering == "std" else [3, 9, 10, 42][i]
+        num = first_number + i if numbering == "std" else TRACK_NUMBERS[numbering][i]
         tracks.append({"number": num, "title": (f"TRK {i + 1}" if title else None), "indices": indices})
     return tracks
 
@@ -180,7 +185,8 @@ class Check(CheckBase):
             "per minute); (ii) all strictly increasing first-index position tuples of 1..4 tracks over P (|P|=6 quick, 9 "
             "thorough) x per-track {one INDEX | INDEX 00+01} x {TITLE | none} under deviation bound 1 x bin length = last "
             "index*2352 + r for r in {0,1,2,3,4,5,2351,2352,2353,4704}, on a virtual position-coded bin through "
-            "parse_cue_sheet/from_bin_cue/WAV builder; minute-carry positions 4499/4500/4501; (iii) a subset through real "
+            "parse_cue_sheet/from_bin_cue/WAV builder; minute-carry positions 4499/4500/4501; TRACK numbers that are not 1..n in sheet order "
+            "(3/9/10/42, counting down, restarting, first one highest, all equal, 0 and 99) with unusual INDEX numbers; (iii) a subset through real "
             ".cue/.bin files and the full ls/export run, incl. sheets of 50, 98 and 99 tracks with 0..700 bytes of ignorable lines per "
             "track (sheets of 3 KB .. 80 KB), and 8 title families whose shape invites special treatment by naming "
             "code (equal, L/R-pair shaped, bare L/R, dotted, unsafe characters, case-only differences, '(2)'-numbered, with and without a '.wav' ending, titles that contain cue keywords such as 'track 2 reprise') judged "
@@ -199,13 +205,21 @@ class Check(CheckBase):
                     for r in RESIDUES:
                         cases.append({"kind": "virtual", "positions": list(positions), "opts": [list(o) for o in opts],
                                       "binlen": Q.SECTOR * positions[-1] + r})
-        # unusual but legal numbering: track numbers 3, 9, 10, 42; first INDEX line numbered 02 or 05..08
+        # unusual but legal numbering: track numbers 3, 9, 10, 42; first INDEX line numbered 02 or 05..08; track numbers counting down, restarting, first one highest, all equal, 0 / 99
         for k in (1, 2, 3, 4):
             for positions in list(itertools.combinations(P, k))[::2]:
                 for opts in ([("one", False)] * k, [("two", True)] * k):
                     for r in (0, 3, 2353):
                         cases.append({"kind": "virtual", "positions": list(positions), "opts": [list(o) for o in opts],
                                       "binlen": Q.SECTOR * positions[-1] + r, "numbering": "odd"})
+        # track numbers that are not ascending in sheet order (count down, restart, first one highest, all equal, 0 / 99)
+        for numbering in ("desc", "restart", "firsthigh", "equal", "zero"):
+            for k in (2, 3, 4):
+                for positions in list(itertools.combinations(P, k))[::2]:
+                    for opts in ([("one", False)] * k, [("two", True)] * k):
+                        for r in (0, 3):
+                            cases.append({"kind": "virtual", "positions": list(positions), "opts": [list(o) for o in opts],
+                                          "binlen": Q.SECTOR * positions[-1] + r, "numbering": numbering})
         # minute carry (virtual 10.6 MB bin)
         for positions in ([4499, 4500], [4500, 4501], [0, 4500], [75, 4499, 4501]):
             for r in (0, 3, 2352):
